@@ -1907,6 +1907,18 @@ package desync
 //# the tree walker hands tar() entries whose Path is in cleaned form (path.Clean of the walked path): tar() decides
 //# which directory an entry belongs to by comparing path.Dir of it with the directory's path, which only works
 //# on cleaned paths - a root spelled "dir/" or "./dir" would otherwise produce an archive of an empty root
+//# F37: Tar reports success only after the source was read to its end (io.EOF from the reader after the root entry's
+//# tree was encoded): an entry left over - a member of a tar stream that is not inside the root's tree, or that arrives
+//# after its directory was closed - is an error, never dropped silently
+//@ ghost var $tarEOF bool
+//@ func Tar
+//@   prop C05 C13
+//@   safety none
+//@   requires $wn >= 0
+//@   ghost@entry $tarEOF = false
+//@   ghost@after:Next $tarEOF = $r1 == io.EOF
+//@   ensures r0 == nil ==> $tarEOF
+
 //# F34: the tree walker's callback hands every entry it is called for to the archiver, except a directory on another
 //# filesystem under --one-file-system - and that one is skipped as a whole (SkipDir): returning nil for it would make
 //# the walk descend into it, its children would arrive without their parent and tar() would close every open
